@@ -6,6 +6,8 @@ _parse_stat_file/_read_status_file/_read_smaps_file and the methods reading them
 """
 import sys as _sys
 
+import errno
+
 from psv import simk, sym
 from psv.run import harness
 from psv.simk import psutil
@@ -23,7 +25,7 @@ META = dict(
     bounds=dict(quick=dict(sequence="K<=3 events from {8 methods, record change, nested block} with symbolic block entry/exit positions, with and without an exception inside the block", as_dict="symbolic subset of 5 attribute names, invalid name, non-collection"),
                 thorough=dict(sequence="K<=4", as_dict="as quick")),
     outside=["longer sequences", "more than 2 threads / 2 pre-emptions; races inside one source line; the kernel record changing while two threads are inside calls"],
-    labels=["value-from-first-read-version", "each-source-read-at-most-once-per-block", "fresh-read-outside-block", "cache-gone-after-exit", "as_dict-keys", "as_dict-invalid-name-ValueError", "as_dict-non-collection-TypeError", "threads-no-spurious-error"],
+    labels=["value-from-first-read-version", "each-source-read-at-most-once-per-block", "fresh-read-outside-block", "cache-gone-after-exit", "as_dict-keys", "as_dict-invalid-name-ValueError", "as_dict-non-collection-TypeError", "as_dict-ad_value", "as_dict-NoSuchProcess-propagates", "threads-no-spurious-error"],
 )
 
 
@@ -182,13 +184,21 @@ def sequence(ctx, K, raise_inside):
 ATTRS = ["ppid", "num_threads", "uids", "cpu_times", "name"]
 
 
-@harness("C16.as_dict", quick=[dict(kind=kd) for kd in ("subset", "invalid", "noncollection", "inside_block")])
+@harness("C16.as_dict", quick=[dict(kind=kd) for kd in ("subset", "invalid", "noncollection", "inside_block", "denied", "vanished")])
 def as_dict(ctx, kind):
+    """kind "denied": one of the records (symbolic which: stat, status, or none) cannot be opened (EACCES or EPERM): exactly the
+    requested keys, ad_value in the slots whose source is the unreadable record, the real values elsewhere, never an exception;
+    kind "vanished": the process is gone: NoSuchProcess whenever something has to be read (attrs=['pid'] alone reads nothing)"""
     k = simk.Kernel(ctx)
     simk.system_files(k)
     simk.full_process(k, P)
     V = Versions(ctx, k)
     V.install()
+    src = None
+    if kind == "denied":      # unreadable from the start (hidepid, another user's process under an LSM): the object is built without it
+        src = ctx.choice("unreadable", ["stat", "status", None])
+        if src:
+            k.files[f"/proc/{P}/{src}"] = simk.oserr(ctx.choice("errno", [errno.EACCES, errno.EPERM]), f"/proc/{P}/{src}")
     with k.installed():
         p = psutil.Process(P)
         V.holder["proc"] = p._proc
@@ -216,6 +226,38 @@ def as_dict(ctx, kind):
         if not want:
             ctx.assume(False)
         container = ctx.choice("container", [list, tuple, set, frozenset])
+        if kind == "denied":
+            if ctx.flag("pid_wanted_too"):
+                want = want + ["pid"]
+            AD = object()
+            d = ctx.guard("as_dict-ad_value", p.as_dict, attrs=container(want), ad_value=AD)
+            ctx.prove(set(d) == set(want), "as_dict-keys", detail=f"{sorted(d)} vs {want}")
+            for a in want:
+                if a == "pid":
+                    ctx.prove(d[a] == P, "as_dict-ad_value", detail="pid")
+                elif METHODS[a] == src:
+                    ctx.prove(d[a] is AD, "as_dict-ad_value", detail=f"{a} with /proc/{P}/{src} unreadable -> {d[a]!r}")
+                else:
+                    ctx.prove(d[a] is not AD, "as_dict-ad_value", detail=f"{a} is readable (unreadable: {src}) but got ad_value")
+                    if d[a] is not AD:
+                        V.check_value(ctx, a, d[a], 0, "value-from-first-read-version")
+            ctx.prove(not hasattr(p, "_cache") and not hasattr(p._proc, "_cache"), "cache-gone-after-exit")
+            return
+        if kind == "vanished":
+            only_pid = ctx.flag("only_pid_wanted")
+            for n in [n for n in list(k.files) if n.startswith(f"/proc/{P}/")]:
+                del k.files[n]
+            k.dirs.pop(f"/proc/{P}", None), k.procs.discard(P)
+            try:
+                d, exc = p.as_dict(attrs=container(["pid"] if only_pid else want), ad_value="AD"), None
+            except psutil.NoSuchProcess as e:
+                d, exc = None, e
+            if only_pid:
+                ctx.prove(d == {"pid": P}, "as_dict-ad_value", detail=f"attrs=['pid'] of a vanished process -> {d!r} {exc!r}")
+            else:
+                ctx.prove(exc is not None and exc.pid == P, "as_dict-NoSuchProcess-propagates", detail=f"{want} of a vanished process -> {d!r}")
+            ctx.prove(not hasattr(p, "_cache") and not hasattr(p._proc, "_cache"), "cache-gone-after-exit")
+            return
         if kind == "inside_block":
             with p.oneshot():
                 V.v += 0
